@@ -167,24 +167,26 @@ class Bes3CgemClusterColReader : public IReader {
         {
             bparser.skip_obj_header();
 
-            auto fNBytes = bparser.read_fNBytes();
+            auto fNBytes   = bparser.read_fNBytes();
+            auto obj_start = bparser.get_cursor();
             bparser.skip_fVersion();
 
-            // Determine class version
+            // TObject (a referenced object carries an extra 2-byte pidf)
+            bparser.skip_TObject();
+
+            // Determine class version from the size of the members after the TObject base
             if ( m_version == -1 )
             {
-                switch ( fNBytes )
+                auto member_bytes = fNBytes - ( bparser.get_cursor() - obj_start );
+                switch ( member_bytes )
                 {
-                case 96: m_version = 0; break;
-                case 88: m_version = 1; break;
+                case 84: m_version = 0; break;
+                case 76: m_version = 1; break;
                 default:
                     throw std::runtime_error( "Unknown TCgemCluster version with fNBytes=" +
                                               std::to_string( fNBytes ) );
                 }
             }
-
-            // TObject
-            bparser.skip_TObject();
 
             // TRecCgemCluster
             m_clusterid->push_back( bparser.read<int32_t>() );
